@@ -305,11 +305,21 @@ def check_property(pid: str, tier: str, seed: int, no_lean: bool = False) -> int
     new_oracle = [f for f in unknown if f.kind == "oracle"]
 
     if tie_broken and not new_oracle and hasattr(mod, "oracle"):
-        # search the implementation for a concrete failing input
+        # search the implementation for a concrete failing input: first at the inputs on which the
+        # correspondence disagreed (the property itself is evaluated there), then with the large budget
         before = len(ctx.failures)
-        try:
+        if hasattr(mod, "oracle_at"):
+            for f in [f for f in tie_broken if f.kind == "corr"][:40]:
+                try:
+                    mod.oracle_at(ctx, f)
+                except Exception as e:
+                    ctx.info(f"oracle_at raised {type(e).__name__}: {e}")
+        if any(f.kind == "oracle" and f.key not in findings for f in ctx.failures[before:]):
+            pass
+        else:
+          try:
             mod.oracle(ctx, "large")
-        except Exception as e:
+          except Exception as e:
             ctx.info(f"large-budget oracle raised {type(e).__name__}: {e}")
         for f in ctx.failures[before:]:
             if f.kind == "oracle" and f.key not in findings:
